@@ -98,6 +98,9 @@ func (e *Env) verifyFuncWith(fn *ssa.Function, extraKinds []string, auto map[*ss
 		ft.kinds[k] = true
 	}
 	ft.c.Preamble = append(ft.c.Preamble, e.smtPre...)
+	if gInt {
+		ft.c.addPre("intmode", intModePreamble)
+	}
 	con := e.contractOf(fn)
 	ft.topCon = con
 	if con != nil {
@@ -182,6 +185,17 @@ func (e *Env) verifyFuncWith(fn *ssa.Function, extraKinds []string, auto map[*ss
 	if ft.fatal != "" {
 		res.Fatal = ft.fatal
 		return res
+	}
+	// fail-stop: a failed callee obliges a non-nil error result
+	if ft.kinds["failstop"] {
+		rsig := fn.Signature.Results()
+		if n := rsig.Len(); n > 0 && rsig.At(n-1).Type().String() == "error" {
+			for _, rs := range fr.rets {
+				if len(rs.vals) == n && len(rs.vals[n-1].L) > 0 {
+					fr.failstopAtReturn(rs, mkNot(mkEq(rs.vals[n-1].L[0], intConst(0))))
+				}
+			}
+		}
 	}
 	// postconditions
 	if con != nil {
@@ -412,19 +426,89 @@ func (fr *frame) assumeInvariants(li *loopInfo) {
 }
 
 // callByContract: assert pre, havoc what the callee may write, assume post.
-func (fr *frame) callByContract(con *Contract, callee *ssa.Function, c *ssa.CallCommon, args []*Val, rt types.Type, pos token.Pos) *Val {
-	ft := fr.ft
-	if callee == nil {
-		fr.havocCall(c)
-		return fr.freshTuple("inv", rt)
+// sigInfo describes the callee of a contract call: a real function, or an interface method (receiver named `self`).
+type sigInfo struct {
+	name    string
+	params  []string
+	ptypes  []types.Type
+	results *types.Tuple
+	pkg     *types.Package
+}
+
+func sigOfFunc(f *ssa.Function) *sigInfo {
+	si := &sigInfo{name: f.Name(), results: f.Signature.Results(), pkg: fnPkg(f)}
+	for _, p := range f.Params {
+		si.params = append(si.params, p.Name())
+		si.ptypes = append(si.ptypes, p.Type())
 	}
-	pre := fr.cur.mem.clone()
-	scPre := &Scope{fr: fr, mem: pre, old: pre, vars: map[string]*sv{}, pkg: fnPkg(callee)}
-	for i, p := range callee.Params {
+	return si
+}
+
+func sigOfMethod(c *ssa.CallCommon) *sigInfo {
+	sig := c.Method.Type().(*types.Signature)
+	si := &sigInfo{name: c.Method.Name(), results: sig.Results(), pkg: c.Method.Pkg()}
+	si.params = append(si.params, "self")
+	si.ptypes = append(si.ptypes, c.Value.Type())
+	for i := 0; i < sig.Params().Len(); i++ {
+		n := sig.Params().At(i).Name()
+		if n == "" || n == "_" {
+			n = fmt.Sprintf("arg%d", i)
+		}
+		si.params = append(si.params, n)
+		si.ptypes = append(si.ptypes, sig.Params().At(i).Type())
+	}
+	return si
+}
+
+func (fr *frame) postScopeSig(si *sigInfo, results []*Val, mem, old *Mem, args []*Val) *Scope {
+	sc := &Scope{fr: fr, mem: mem, old: old, vars: map[string]*sv{}, pkg: si.pkg}
+	for i, n := range si.params {
 		if i < len(args) {
 			a := *args[i]
-			a.T = p.Type()
-			scPre.vars[p.Name()] = &sv{v: &a}
+			a.T = si.ptypes[i]
+			sc.vars[n] = &sv{v: &a}
+		}
+	}
+	rs := si.results
+	for i := 0; i < rs.Len() && i < len(results); i++ {
+		r := *results[i]
+		r.T = rs.At(i).Type()
+		if n := rs.At(i).Name(); n != "" && n != "_" {
+			sc.vars[n] = &sv{v: &r}
+		}
+		sc.vars[fmt.Sprintf("result%d", i)] = &sv{v: &r}
+		if i == 0 {
+			sc.vars["result"] = &sv{v: &r}
+		}
+		if i == rs.Len()-1 && isInterface(rs.At(i).Type()) && rs.At(i).Type().String() == "error" {
+			if _, taken := sc.vars["err"]; !taken {
+				sc.vars["err"] = &sv{v: &r}
+			}
+		}
+	}
+	return sc
+}
+
+func (fr *frame) callByContract(con *Contract, callee *ssa.Function, c *ssa.CallCommon, args []*Val, rt types.Type, pos token.Pos) *Val {
+	var si *sigInfo
+	if callee != nil {
+		si = sigOfFunc(callee)
+	} else {
+		si = sigOfMethod(c)
+	}
+	return fr.callBySig(con, si, c, args, rt, pos)
+}
+
+func (fr *frame) callBySig(con *Contract, si *sigInfo, c *ssa.CallCommon, args []*Val, rt types.Type, pos token.Pos) *Val {
+	ft := fr.ft
+	preHyp := fr.cur.pc
+	pre := fr.cur.mem.clone()
+	scPre := &Scope{fr: fr, mem: pre, old: pre, vars: map[string]*sv{}, pkg: si.pkg}
+	for i, n := range si.params {
+		if i < len(args) {
+			a := *args[i]
+			a.T = si.ptypes[i]
+			scPre.vars[n] = &sv{v: &a}
 		}
 	}
 	for _, r := range con.Requires {
@@ -433,10 +517,10 @@ func (fr *frame) callByContract(con *Contract, callee *ssa.Function, c *ssa.Call
 			ft.fatal = fmt.Sprintf("%s:%d: requires (at call): %v", r.File, r.Line, scPre.err)
 			return nil
 		}
-		fr.oblige("pre", fmt.Sprintf("%s: %s", callee.Name(), shortText(r.Src)), pos, t)
+		fr.oblige("pre", fmt.Sprintf("%s: %s", si.name, shortText(r.Src)), pos, t)
 	}
 	var results []*Val
-	rs := callee.Signature.Results()
+	rs := si.results
 	if con.HasAssigns {
 		var items []*assignItem
 		for _, a := range con.Assigns {
@@ -455,30 +539,49 @@ func (fr *frame) callByContract(con *Contract, callee *ssa.Function, c *ssa.Call
 				cs = append(cs, c)
 			}
 			sort.Strings(cs)
-			fr.frameCheck(cs, it.ref, fmt.Sprintf("%s assigns %s", callee.Name(), a.Src), pos)
+			fr.frameCheck(cs, it.ref, fmt.Sprintf("%s assigns %s", si.name, a.Src), pos)
 		}
 		fr.applyAssigns(items)
+		// results designated by result-based items are memory allocated by the callee: their reference is a fresh
+		// allocation (or nil), not an input-range reference
+		resFresh := map[string]bool{}
+		for _, a := range con.Assigns {
+			if mentionsResult(a.E) {
+				if base := resultBase(a.E); base != nil {
+					resFresh[base.Name] = true
+				}
+			}
+		}
 		for i := 0; i < rs.Len(); i++ {
-			r := ft.freshInput(fmt.Sprintf("r$%s$%d", callee.Name(), i), rs.At(i).Type())
+			r := ft.freshInput(fmt.Sprintf("r$%s$%d", si.name, i), rs.At(i).Type())
+			names := []string{fmt.Sprintf("result%d", i), rs.At(i).Name()}
+			if i == 0 {
+				names = append(names, "result")
+			}
+			isFresh := false
+			for _, n := range names {
+				if n != "" && resFresh[n] {
+					isFresh = true
+				}
+			}
+			if isFresh && len(r.L) > 0 && r.L[0].S == SInt && (isPointer(r.T) || isSlice(r.T)) {
+				isNil := ft.c.Fresh("resnil", SBool)
+				nr := *r
+				nr.L = append([]Term{}, r.L...)
+				nr.L[0] = ft.c.Define("resref", mkIte(isNil, intConst(0), ft.newRef()))
+				if isSlice(r.T) {
+					// nil slice has len = cap = 0
+					fr.assume(mkImp(isNil, mkAnd(mkEq(nr.L[2], idxInt(0)), mkEq(nr.L[3], idxInt(0)))))
+				}
+				r = &nr
+			}
 			results = append(results, r)
 		}
-		// result-based items: the result designates memory allocated by the callee
-		freshened := map[string]bool{}
 		for _, a := range con.Assigns {
 			if !mentionsResult(a.E) {
 				continue
 			}
-			scR := fr.postScope(callee, con, results, fr.cur.mem, pre, args)
-			// make the result reference fresh (or nil)
-			if base := resultBase(a.E); base != nil {
-				if rv, ok := scR.vars[base.Name]; ok && rv.v != nil && len(rv.v.L) > 0 && rv.v.L[0].S == SInt {
-					if _, isSym := ft.c.decls[rv.v.L[0].T]; isSym && !freshened[rv.v.L[0].T] {
-						freshened[rv.v.L[0].T] = true
-						isNil := ft.c.Fresh("resnil", SBool)
-						ft.c.Assume(rv.v.L[0], mkEq(rv.v.L[0], mkIte(isNil, intConst(0), ft.newRef())))
-					}
-				}
-			}
+			scR := fr.postScopeSig(si, results, fr.cur.mem, pre, args)
 			it, err := scR.evalAssignItem(a)
 			if err != nil {
 				ft.fatal = fmt.Sprintf("%s:%d: %v", a.File, a.Line, err)
@@ -489,10 +592,10 @@ func (fr *frame) callByContract(con *Contract, callee *ssa.Function, c *ssa.Call
 	} else {
 		fr.havocCall(c)
 		for i := 0; i < rs.Len(); i++ {
-			results = append(results, ft.freshInput(fmt.Sprintf("r$%s$%d", callee.Name(), i), rs.At(i).Type()))
+			results = append(results, ft.freshInput(fmt.Sprintf("r$%s$%d", si.name, i), rs.At(i).Type()))
 		}
 	}
-	sc := fr.postScope(callee, con, results, fr.cur.mem, pre, args)
+	sc := fr.postScopeSig(si, results, fr.cur.mem, pre, args)
 	for _, en := range con.Ensures {
 		t := sc.evalBool(en.E)
 		if sc.err != nil {
@@ -503,8 +606,8 @@ func (fr *frame) callByContract(con *Contract, callee *ssa.Function, c *ssa.Call
 	}
 	if con.Abstracts != "" && len(results) == 1 {
 		var as []*SExpr
-		for _, p := range callee.Params {
-			as = append(as, &SExpr{Op: "id", Name: p.Name()})
+		for _, n := range si.params {
+			as = append(as, &SExpr{Op: "id", Name: n})
 		}
 		eq := &SExpr{Op: "binop", Name: "==", Args: []*SExpr{{Op: "id", Name: "result"}, {Op: "call", Name: con.Abstracts, Args: as}}}
 		t := sc.evalBool(eq)
@@ -513,6 +616,14 @@ func (fr *frame) callByContract(con *Contract, callee *ssa.Function, c *ssa.Call
 			return nil
 		}
 		fr.assume(t)
+	}
+	// vacuity guard: the assumed postconditions must not make a feasible path infeasible
+	{
+		base := fmt.Sprintf("%s#cover#after call to %s", ft.fname(), si.name)
+		k := ft.names[base]
+		ft.names[base] = k + 1
+		ft.obs = append(ft.obs, &Oblig{Name: fmt.Sprintf("%s#%d", base, k), Kind: "cover", Func: ft.fname(), Text: "postconditions of " + si.name + " are consistent here",
+			Pos: ft.e.pos(pos), Hyp: fr.cur.pc, Hyp2: preHyp, Goal: tTrue, Cover: true})
 	}
 	switch len(results) {
 	case 0:
